@@ -1,4 +1,92 @@
-import ZorgVerif.Model.Action
+import ZorgVerif.Lemmas.Action
+/-! # C17 — `action open` offers and opens exactly the link targets on the line
+
+Model: `Model/Action.lean` (`run_action_open`: the word scan with its `found_primary_zid` state variable, the
+PROMPT / option protocol, `_open_link` dispatch with the index lookups as parameters).
+Spec: `Model/ActionSpec.lean` (`specTargets`: skip the prefix words; the first other word is left out iff it is
+the note's own bare ZID; from then on every word offers its target). -/
 namespace ZorgVerif.C17
-theorem C17_placeholder : (1 : Nat) = 1 := rfl
+open ZorgVerif ZorgVerif.Action
+
+/-- **Targets** — for every line (any words, any prefix shape, `.zo` or `.zoq`) the scan of the implementation
+yields exactly the targets of the statement, in line order. -/
+theorem C17_targets (vd : Str → Bool) (isZoq : Bool) (line : Str) :
+    targets vd isZoq line = specTargets vd isZoq 0 ((splitOn ' ' line).map (stripSet "(),.?!;:".toList)) :=
+  targets_eq_spec vd isZoq line
+
+/-- once the body has started, every word offers its target: nothing is skipped, nothing invented -/
+theorem C17_body_words (vd : Str → Bool) (isZoq : Bool) (i : Nat) (ws : List Str) :
+    scan vd isZoq i true ws = ws.filterMap (wordTarget vd) := scan_found vd isZoq i ws
+
+/-- in a `.zoq` page (and for the first word of any line) a ZID is never treated as primary -/
+theorem C17_zoq_all_zids (vd : Str → Bool) (i : Nat) (w : Str) : isPrimary vd true i w = false := by
+  simp [isPrimary]
+
+/-- **Protocol** — every answer line starts with EDIT, SEARCH, PROMPT or ECHO, for every target list, option and index -/
+theorem C17_protocol (zdir : Str) (lk : Lookup) (ts : List Target) (n : Nat) (opt : Option Int) :
+    ∀ l ∈ (respond zdir lk ts n opt).lines, isProtocol l = true := respond_protocol zdir lk ts n opt
+
+/-- one target is opened directly, whatever the option -/
+theorem C17_single (zdir : Str) (lk : Lookup) (t : Target) (n : Nat) (opt : Option Int) :
+    respond zdir lk [t] n opt = openLink zdir lk t := respond_single zdir lk t n opt
+
+/-- several targets are offered through PROMPT, in line order -/
+theorem C17_prompt (zdir : Str) (lk : Lookup) (ts : List Target) (n : Nat) (h : 2 ≤ ts.length) :
+    respond zdir lk ts n none = ⟨["PROMPT ".toList ++ joinWith [' '] (ts.map Target.text)], 0⟩ :=
+  respond_prompt zdir lk ts n h
+
+/-- **Option k** opens the same thing as a line containing only the k-th target (any line number / option there) -/
+theorem C17_option (zdir : Str) (lk : Lookup) (ts : List Target) (n n' : Nat) (k : Nat) (h : 2 ≤ ts.length)
+    (hk1 : 1 ≤ k) (hk : k ≤ ts.length) (opt' : Option Int) :
+    ∃ t, ts[k - 1]? = some t ∧ respond zdir lk ts n (some (k : Int)) = respond zdir lk [t] n' opt' :=
+  respond_option zdir lk ts n n' k h hk1 hk opt'
+
+/-- option -1 opens the last target -/
+theorem C17_option_last (zdir : Str) (lk : Lookup) (ts : List Target) (n n' : Nat) (h : 2 ≤ ts.length) (opt' : Option Int) :
+    ∃ t, ts.getLast? = some t ∧ respond zdir lk ts n (some (-1)) = respond zdir lk [t] n' opt' :=
+  respond_option_last zdir lk ts n n' h opt'
+
+/-- any other option fails without output -/
+theorem C17_option_out_of_range (zdir : Str) (lk : Lookup) (ts : List Target) (n : Nat) (k : Int) (h : 2 ≤ ts.length)
+    (hk : k = 0 ∨ k < -1 ∨ (ts.length : Int) < k) : respond zdir lk ts n (some k) = ⟨[], 1⟩ :=
+  respond_option_out_of_range zdir lk ts n k h hk
+
+/-- **Page links**: `[[p]]` opens page p under the notes directory -/
+theorem C17_page_link (zdir : Str) (lk : Lookup) (p : Str) (hp : '#' ∉ p) :
+    openLink zdir lk (.word ("[[".toList ++ p ++ "]]".toList)) = ⟨["EDIT ".toList ++ fullPath zdir p], 0⟩ :=
+  open_page_link zdir lk p hp
+
+/-- `[[p#a]]` opens page p and searches for anchor a -/
+theorem C17_page_anchor_link (zdir : Str) (lk : Lookup) (p a : Str) (hp : '#' ∉ p) (ha : '#' ∉ a) :
+    openLink zdir lk (.word ("[[".toList ++ p ++ ['#'] ++ a ++ "]]".toList)) =
+      ⟨["EDIT ".toList ++ fullPath zdir p, "SEARCH LID::".toList ++ a], 0⟩ :=
+  open_page_anchor_link zdir lk p a hp ha
+
+/-- **ZID targets** open the page of the indexed note that owns the ZID (and nothing when no note owns it) -/
+theorem C17_zid (vd : Str → Bool) (zdir : Str) (lk : Lookup) (z : Str) (hz : isZid vd z = true) (hl : isLinkWord z = false) :
+    openLink zdir lk (.zid z) = match lk.zidPage z with
+      | some page => ⟨["EDIT ".toList ++ fullPath zdir page, "SEARCH \\s\\zs".toList ++ z], 0⟩
+      | none => ⟨[], 1⟩ := open_zid vd zdir lk z hz hl
+
+/-- **ID targets** open the one page whose notes carry the ID -/
+theorem C17_id_link (zdir : Str) (lk : Lookup) (v page : Str) (hv : ∀ c ∈ v, c ≠ '^' ∧ c ≠ '[')
+    (h : dedupSorted (lk.idPages v) = [page]) :
+    openLink zdir lk (.word ("[#".toList ++ v ++ "]".toList)) =
+      ⟨["EDIT ".toList ++ fullPath zdir page, "SEARCH ID::".toList ++ v ++ searchEnd], 0⟩ := open_id_link zdir lk v page hv h
+
+/-- … and that page is a page of a note carrying the ID (the de-duplication neither adds nor drops pages) -/
+theorem C17_id_pages (xs : List Str) (x : Str) : x ∈ dedupSorted xs ↔ x ∈ xs := dedupSorted_mem xs x
+
+/-- **RID targets** open the page of the one note carrying the RID -/
+theorem C17_rid_link (zdir : Str) (lk : Lookup) (v page : Str) (hv : ∀ c ∈ v, c ≠ '^' ∧ c ≠ '[') (h : lk.ridPages v = [page]) :
+    openLink zdir lk (.word ("[@".toList ++ v ++ "]".toList)) =
+      ⟨["EDIT ".toList ++ fullPath zdir page, "SEARCH RID::".toList ++ v ++ searchEnd], 0⟩ := open_rid_link zdir lk v page hv h
+
+/-! Non-vacuity: concrete lines (kernel-evaluated). -/
+private def vd : Str → Bool := fun _ => true
+example : (targets vd false "o P1 240612 240101#aa 240202#bb see [240303#cc], [[page#top]] and ([#gid]).".toList).map Target.text
+    = ["240202#bb", "240303#cc", "[[page#top]]", "[#gid]"].map String.toList := by decide +kernel
+example : (targets vd true "- 240101#aa x".toList).map Target.text = ["240101#aa".toList] := by decide +kernel
+example : (targets vd false "- 240101#aa x".toList) = [] := by decide +kernel
+
 end ZorgVerif.C17
